@@ -117,10 +117,14 @@ def search_origin(t):
     t = strip_wrappers(t)
     if t[0] == "cast":
         return search_origin(t[1])
-    if t[0] == "bin" and t[1] == "Add" and t[3][0] == "c" and t[3][2] in (0, 1):
-        o = search_origin(t[2])
-        if o is not None:
-            return (o[0], o[1] + t[3][2])
+    if t[0] == "bin" and t[1] == "Add":
+        # constant + found position (either side, nested): the bound moves by the constant
+        for x, c in ((t[2], t[3]), (t[3], t[2])):
+            c0 = strip_wrappers(c)
+            if c0[0] == "c" and isinstance(c0[2], int) and not isinstance(c0[2], bool) and 0 <= c0[2] <= 64:
+                o = search_origin(x)
+                if o is not None:
+                    return (o[0], o[1] + c0[2])
     if t[0] == "pl":
         # payload of Some(..) / Ok(..) of a search call
         inner = t[1]
@@ -131,7 +135,8 @@ def search_origin(t):
         if inner[0] == "call" and name_is(inner[2], "BangType::parse") and fields_of(t)[-1:] == ("1",):
             return (base_slice(inner[3][2]), 1)  # `used` = index of '>' + 1 within the chunk (C01 R3)
         if inner[0] == "call" and name_is(inner[2], "memchr", "memchr2", "memchr3", "memrchr", "position", "rposition", "find", "rfind", "next", "iter_position"):
-            if name_is(inner[2], "next"):
+            if name_is(inner[2], "next") or (name_is(inner[2], "find", "last", "min", "max") and "Iterator" in inner[2]):
+                # items of a search iterator (`for p in memchr_iter(..)`, `memchr_iter(..).find(..)`) are positions in its haystack
                 it = strip_wrappers(inner[3][0])
                 if it[0] == "phi" and len(it) > 4:
                     it = strip_wrappers(it[4])  # an iterator carried round the loop is still the iterator it was created as
@@ -179,6 +184,8 @@ def analyse_body(ctx, body, max_paths=40000):
             s.undischarged.append("path budget exceeded")
         return list(sites.values())
     # a site is identified by its block; events carry the block index
+    global CUR_PATHS
+    CUR_PATHS = paths
     for p in paths:
         for i, e in enumerate(p):
             bb = e[1] if e[0] in ("call", "assert") else None
@@ -253,14 +260,43 @@ def same_slice(a, b):
     return norm(a) == norm(b)
 
 
+def rebase(o, target):
+    """(S, off) with S = &B[a .. len(B) - b] (constants a, b) says value < len(B) - a - b + off: restate it for B."""
+    n = 0
+    while o is not None and not same_slice(o[0], target) and n < 4:
+        n += 1
+        w = strip_wrappers(o[0])
+        if not (w[0] == "call" and name_is(w[2], "index") and len(w[3]) == 2 and w[3][1][0] == "agg"):
+            return o
+        rng = w[3][1]
+        B = base_slice(w[3][0])
+        a = b = 0
+        if rng[2] in ("Range", "RangeFrom"):
+            lo = strip_wrappers(rng[3][0])
+            if not (lo[0] == "c" and isinstance(lo[2], int)):
+                return o
+            a = lo[2]
+        if rng[2] in ("Range", "RangeTo"):
+            hi = strip_wrappers(rng[3][-1])
+            if hi[0] == "bin" and hi[1] == "Sub" and strip_wrappers(hi[3])[0] == "c" and (call_is(hi[2], "len") or hi[2][0] == "len") and same_slice(base_slice(hi[2][3][0] if hi[2][0] == "call" else hi[2][1]), B):
+                b = strip_wrappers(hi[3])[2]
+            else:
+                return o
+        if rng[2] not in ("Range", "RangeFrom", "RangeTo"):
+            return o
+        o = (B, o[1] - a - b)
+    return o
+
+
 def bounds_arg(p, i, cond):
     """cond = ('bounds', index_term, len_term)"""
     if cond is None or cond[0] != "bounds":
         return None
     idx, ln = cond[1], cond[2]
-    o = search_origin(idx)
-    if o is not None and o[1] == 0:
-        return "element index found by a search over the indexed slice"
+    target = base_slice(ln[1]) if ln[0] == "len" else (base_slice(ln[3][0]) if ln[0] == "call" and ln[3] else ln)
+    o = rebase(search_origin(idx), target)
+    if o is not None and o[1] <= 0 and same_slice(o[0], target):
+        return "element index found by a search over the indexed slice (window offsets included)"
     idx0 = strip_wrappers(idx)
     if idx0[0] == "c" and isinstance(idx0[2], int):
         k = idx0[2]
@@ -291,11 +327,64 @@ def bounds_arg(p, i, cond):
     return None
 
 
+INCREASING = ("memchr_iter", "memchr2_iter", "memchr3_iter", "char_indices", "enumerate", "match_indices")
+CUR_PATHS = []
+
+
+def _iter_origin(t):
+    """the call that created the iterator whose `next()` produced payload t, if it yields strictly increasing integers"""
+    t = strip_wrappers(t)
+    if t[0] != "pl" or t[1][0] != "call" or not name_is(t[1][2], "next"):
+        return None
+    it = strip_wrappers(t[1][3][0])
+    hdr = None
+    if it[0] == "phi" and len(it) > 4:
+        hdr = it[1]
+        it = strip_wrappers(it[4])
+    while it[0] == "call" and name_is(it[2], "into_iter", "by_ref"):
+        it = strip_wrappers(it[3][0])
+    if it[0] == "call" and name_is(it[2], *INCREASING):
+        return (it, hdr, t[1][1])
+    return None
+
+
+def monotone_arg(a, b):
+    """a - b where a is the current item of a strictly increasing iterator driving a loop and b is a loop-carried
+    value that starts at 0 and is only ever set to (an earlier item) or (an earlier item + 1)."""
+    b0 = strip_wrappers(b)
+    org = _iter_origin(a)
+    if org is None or b0[0] != "phi" or len(b0) < 5 or b0[1] != org[1]:
+        return None
+    if strip_wrappers(b0[4]) != ("c", "usize", 0):
+        return None
+    ups = 0
+    for q in CUR_PATHS:
+        if not q or q[-1][0] != "loop" or q[-1][1] != b0[1]:
+            continue
+        v = q[-1][2].get(b0[3])
+        if v is None:
+            return None
+        v = strip_wrappers(v)
+        if v == b0:
+            continue  # unchanged on this back edge
+        base = v
+        if v[0] == "bin" and v[1] == "Add" and strip_wrappers(v[3]) == ("c", "usize", 1):
+            base = strip_wrappers(v[2])
+        o2 = _iter_origin(base)
+        if o2 is None or o2[2] != org[2]:
+            return None
+        ups += 1
+    return "current item of a strictly increasing iterator minus a carried value that is 0 or (an earlier item [+ 1])" if ups else None
+
+
 def sub_arg(p, i, cond):
     """cond = ('sub', a, b): a - b must not underflow"""
     if cond is None or cond[0] != "sub":
         return None
     a, b = cond[1], cond[2]
+    m = monotone_arg(a, b)
+    if m:
+        return m
     b0 = strip_wrappers(b)
     for t, v, listed in decisions_before(p, i):
         if t[0] == "bin" and t[1] in ("Gt", "Ge") and v != 0 and (t[2] == a or strip_wrappers(t[2]) == strip_wrappers(a)):
@@ -366,6 +455,8 @@ def unwrap_arg(p, i, e):
     if recv[0] == "agg" and recv[2] in ("Some", "Ok"):
         return "unwrap of a value constructed on this path"
     for t, v, listed in decisions_before(p, i):
+        if t[0] == "discr" and strip_wrappers(t[1]) == recv and ((v == 1 and "Option" in str(t[3])) or (v == 0 and "Result" in str(t[3]))):
+            return "unwrap of a value matched as Some/Ok on this path"
         if t[0] == "call" and name_is(t[2], "is_some", "is_ok") and v != 0 and strip_wrappers(t[3][0]) == recv:
             return "unwrap after is_some/is_ok"
         if t[0] == "call" and name_is(t[2], "is_none", "is_err") and v == 0 and strip_wrappers(t[3][0]) == recv:
